@@ -280,6 +280,13 @@ theorem handleThrow_tries_irrel (ex : Option Val) (fs : List TryFrame) (vm : VM)
       · rfl
       · split <;> rfl
 
+/-- an uncatchable error skips every frame, calls no return(), and leaves run() -/
+theorem handleThrow_none (fs : List TryFrame) (vm : VM) (hi : vm.iters = []) :
+    (VM.handleThrow none fs vm).halted = some Compl.fatal ∧ (VM.handleThrow none fs vm).log = vm.log := by
+  induction fs with
+  | nil => simp [VM.handleThrow, VM.closeIters, VM.closeIters.go, hi]
+  | cons tf rest ih => simpa [VM.handleThrow] using ih
+
 theorem SimG.prependG {C : Code} {ctx : List BI} {src mid base midB : VM} {e : Nat} {I : List Nat} {rf : Bool}
     {l1 l2 : List Ev} {k : K} (hr : Reach C src mid) (hc : Common base midB l1 I rf) (hs : midB.stack = base.stack)
     (h : SimG C ctx mid midB e I rf l2 k) : SimG C ctx src base e I rf (l1 ++ l2) k := by
@@ -858,7 +865,7 @@ theorem retFree_no_ret (s : Stmt) : stage1 s = true → retFree s = true → ∀
   | cont l => intro _ _ env ls v; simp [exec, kind]
   | ret v => intro _ hr; simp [retFree] at hr
   | thr v => intro _ _ env ls w; simp [exec, kind]
-  | fatal => intro hs; simp [stage1] at hs
+  | fatal => intro _ _ env ls v; simp [exec, kind]
   | tryS i b hasC c hasF f ihb ihc ihf =>
     intro hs hr env ls
     simp only [stage1, Bool.and_eq_true] at hs
@@ -981,7 +988,10 @@ theorem catchStage {C : Code} {ctx : List BI} {σ1 : VM} {p0 lb lc env cur i : N
       refine ⟨g0, rfl, rfl, rfl, rfl, fun w hw => by simp [catchPart, kind] at hw, ?_⟩
       rw [hself]
       exact SimK.end_irrel (k := K.ret v) (by simp) hB
-    | fatal => exact hB.elim
+    | fatal =>
+      refine ⟨g0, rfl, rfl, rfl, rfl, fun w hw => by simp [catchPart, kind] at hw, ?_⟩
+      rw [hself]
+      exact SimK.end_irrel (k := K.fatal) (by simp) hB
     | thr v =>
       obtain ⟨τt, hc, ⟨xs, hs⟩, hr⟩ := hB
       have htt : τt.tries = g0 :: rest := by rw [hc.tries, ht]
@@ -1072,18 +1082,29 @@ theorem trySim {C : Code} {ctx : List BI} {σ : VM} {pc lb lc lf env cur i : Nat
     obtain ⟨g, hgf, hgx, hgr, hgsp, hgthr, hA⟩ := catchStage (C := C) (ctx := ctx) (σ1 := σ1) (p0 := pc + 2) (lb := lb) (lc := lc)
       (env := env) (cur := cur) (i := i) (hasC := hasC) (I := I) (rf := rf) (g0 := tf0) (rest := σ.tries) (rb := rb) (rc := rc)
       (by rw [e1]) (by simp [tf0]) (by rw [e1]) (by rw [e1]; exact hit) (by rw [e1]; exact hcnt) hcurI hB' hC
-    have S := finallyStage (C := C) (ctx := ctx) (src := σ1) (base := { σ1 with tries := g :: σ.tries }) (g := g) (rest := σ.tries)
-      (pcF := pc + 2 + lb + (if hasC then lc + 4 else 0)) (lf := lf) (env := env) (cur := cur) (i := i) (I := I) (If := If) (rf := rf)
-      (by rw [hgf]) (by rw [hgx]) (by rw [hgr]) (by rw [hgsp, e1]) hgthr hretA rfl (by rw [e1]; exact hit)
-      (by rw [e1]; exact hcnt) hcurI hsubF hE hM hL hrfF hF hA
-    have hc1 : Common σ { σ1 with tries := σ.tries } [Ev.tryE i] I rf := by
-      rw [e1]; exact ⟨rfl, rfl, hit, hh, fun _ _ => rfl, fun _ => rfl⟩
-    have R := SimG.prependG (src := σ) (base := σ) hr1 hc1 (by rw [e1]) S
-    -- match with the reference semantics
     simp only [tryRes, if_true]
     by_cases hfat : (catchPart i rb hasC rc).1 = .fatal
-    · rw [hfat] at hA; exact hA.elim
-    · obtain ⟨hk, hl⟩ := kind_finPart i (catchPart i rb hasC rc) rff hfat
+    · -- uncatchable error in the try/catch part: the machine has halted, nothing else runs
+      have hfp : finPart i (catchPart i rb hasC rc) rff = (.fatal, Ev.tryE i :: (catchPart i rb hasC rc).2) := by
+        generalize catchPart i rb hasC rc = rbc at hfat
+        obtain ⟨cc, l⟩ := rbc
+        simp only at hfat; subst hfat; rfl
+      rw [hfat] at hA
+      obtain ⟨τ, h1, h2, h3⟩ := hA
+      rw [hfp]
+      refine ⟨τ, hr1.trans h1, ?_, h3⟩
+      rw [h2, e1]; simp
+    · have hnf : kind (catchPart i rb hasC rc).1 ≠ K.fatal := by
+        intro h; apply hfat
+        cases hc : (catchPart i rb hasC rc).1 <;> rw [hc] at h <;> simp [kind] at h
+      have S := finallyStage (C := C) (ctx := ctx) (src := σ1) (base := { σ1 with tries := g :: σ.tries }) (g := g) (rest := σ.tries)
+        (pcF := pc + 2 + lb + (if hasC then lc + 4 else 0)) (lf := lf) (env := env) (cur := cur) (i := i) (I := I) (If := If) (rf := rf)
+        (by rw [hgf]) (by rw [hgx]) (by rw [hgr]) (by rw [hgsp, e1]) hgthr hretA hnf rfl (by rw [e1]; exact hit)
+        (by rw [e1]; exact hcnt) hcurI hsubF hE hM hL hrfF hF hA
+      have hc1 : Common σ { σ1 with tries := σ.tries } [Ev.tryE i] I rf := by
+        rw [e1]; exact ⟨rfl, rfl, hit, hh, fun _ _ => rfl, fun _ => rfl⟩
+      have R := SimG.prependG (src := σ) (base := σ) hr1 hc1 (by rw [e1]) S
+      obtain ⟨hk, hl⟩ := kind_finPart i (catchPart i rb hasC rc) rff hfat
       rw [hk, hl]
       have e : pc + (1 + 1) + lb + (if hasC then lc + 4 else 0) + (2 + lf + 1)
           = pc + 2 + lb + (if hasC then lc + 4 else 0) + 2 + lf + 1 := by omega
@@ -1236,8 +1257,22 @@ theorem sim (s : Stmt) : ∀ (cur : Nat) (lab : Option Label) (ls : List Label) 
       have := Reach.one (C := C) (σ := VM.step σ (.loadVal v)) (by simpa using hh) hi2
       simpa using this
   | fatal =>
-    intro cur lab ls ctx pc C σ env hst
-    simp [stage1] at hst
+    intro cur lab ls ctx pc C σ env hst hls hlab hcur hnop hC hpc hh hit hcnt
+    have hl : lab = none := hlab rfl
+    subst hl
+    rw [adj_none]
+    simp only [gen] at hC
+    have hi : C[σ.pc]? = some Instr.fatal := by rw [hpc]; exact codeAt_head hC
+    have hT := handleThrow_none σ.tries (σ.out Ev.fatal) (by simpa [VM.out] using hit)
+    refine ⟨VM.step σ .fatal, Reach.one hh hi, ?_, ?_⟩
+    · show (VM.throwV none (σ.out Ev.fatal)).log = _
+      rw [VM.throwV]
+      simp only [VM.out] at hT ⊢
+      rw [hT.2]; simp [exec]
+    · show (VM.throwV none (σ.out Ev.fatal)).halted = _
+      rw [VM.throwV]
+      simp only [VM.out] at hT ⊢
+      exact hT.1
   | tryS i b hasC c hasF f ihb ihc ihf =>
     intro cur lab ls ctx pc C σ env hst hls hlab hcur hnop hC hpc hh hit hcnt
     have hl : lab = none := hlab rfl
